@@ -283,3 +283,64 @@ func VH_C10_Wrapped() {
 	out2, err2 := e.Render(names[depth], map[string]interface{}{"x": x})
 	symAssert(err2 == nil && out2 == out, "block-substitution-repeatable")
 }
+
+// ---- C10.choose: the parent is what the extends expression evaluates to, at every render ------------
+
+// VH_C10_Choose: a template whose extends tag is an expression (a name in a variable, a conditional
+// with literal arms, a conditional with a literal and a variable arm, a concatenation, the first
+// element of a list) is rendered R times on one engine with contexts that select layout A or layout B
+// (the selection of every render is symbolic): each render is block substitution into the layout its
+// own context selects, whatever earlier renders selected.
+func VH_C10_Choose() {
+	r := symParam("R", 3)
+	forms := []string{
+		"{% extends layout %}",
+		"{% extends wide ? 'A' : 'B' %}",
+		"{% extends wide ? 'A' : other %}",
+		"{% extends 'lay' ~ suffix %}",
+		"{% extends [layout, 'B'][0] %}",
+		"{% extends wide ? (wide ? 'A' : 'B') : 'B' %}",
+	}
+	f := symChoice(len(forms))
+	symTag("form:" + forms[f])
+	callsParent := symBool()
+	e := New()
+	e.RegisterString("A", "A<{% block a %}a{{ x }}{% endblock %}|{% block b %}Ab{% endblock %}>")
+	e.RegisterString("B", "B[{% block b %}Bb{% endblock %}|{% block a %}b{{ x }}{% endblock %}]")
+	e.RegisterString("layA", "{% extends 'A' %}")
+	e.RegisterString("layB", "{% extends 'B' %}")
+	body := "c{{ x }}"
+	if callsParent {
+		body = "c({{ parent() }})"
+	}
+	if e.RegisterString("page", forms[f]+"{% block a %}"+body+"{% endblock %}") != nil {
+		symCover("rejected-at-parse")
+		return
+	}
+	hist := ""
+	for i := 0; i < r; i++ {
+		wide := symBool()
+		x := symStringIn(1, "xy")
+		ctx := map[string]interface{}{"x": x, "wide": wide, "layout": "B", "other": "B", "suffix": "B"}
+		inner := "c" + x
+		want := "B[Bb|" + inner + "]"
+		if callsParent {
+			want = "B[Bb|c(b" + x + ")]"
+		}
+		if wide {
+			hist += "A"
+			ctx["layout"], ctx["suffix"] = "A", "A"
+			want = "A<" + inner + "|Ab>"
+			if callsParent {
+				want = "A<c(a" + x + ")|Ab>"
+			}
+		} else {
+			hist += "B"
+		}
+		out, err := e.Render("page", ctx)
+		symAssert(err == nil, "renders")
+		symAssert(out == want, "parent-is-what-this-render-selects")
+	}
+	symTag("hist:" + hist)
+	symCover("rendered")
+}
